@@ -94,6 +94,9 @@ func checkC06(c *Ctx) {
 		checkDrainMakesDescriptorNonBlocking(c, p, "C06-R20")
 		checkSimFiniResetsBounds(c, p, "C06-R21")
 		checkSimInitMakesQueuesFirst(c, p, "C06-R22")
+		c.Rule("C06-R23", "Fini stops the Tty and joins the loops whatever Drain reports: once the teardown has marked the screen as not running every way out passes Tty.Stop (= C04-R17)")
+		c.Expect("C06-R23", 1)
+		checkTeardownCompletes(c, p, "C06-R23")
 		checkFiniSafeBeforeInit(c, p, "C06-R17", "simscreen")
 		for _, f := range []string{"tty", "ti"} {
 			ws := []string{}
